@@ -37,3 +37,21 @@ Proof.
     + apply proj_frames_out. right. exact El.
   - apply proj_frames_out. left. exact Hnin.
 Qed.
+
+(* C14 at every reachable state *)
+Theorem notice_exact_reachable cfg fuel es u s (k : nat) p hh c :
+  run cfg fuel es = Ok u s ->
+  zmem (h_type hh) no_notice_types = false ->
+  m_reg (find_mod c (mods s)) = true -> zmem c (wl s) = false -> m_logger (find_mod c (mods s)) = false ->
+  (forall f, In f (snapshot s MT_FAILED_MESSAGE) -> zmem f (wl s) = true /\ flookup f (faults s) = None) ->
+  exists s', deliver_with cfg (forward cfg (Datatypes.S k)) p hh c s = Ok hh s' /\
+    out s' = out s ++ frames fail_hdr (PFailed (m_mod_id (find_mod c (mods s))) hh) s (snapshot s MT_FAILED_MESSAGE) /\
+    m_drops (find_mod c (mods s')) = m_drops (find_mod c (mods s)) + 1.
+Proof.
+  intros Hrun Ht Hreg Hw Hlg Henv. pose proof (run_safe cfg fuel es) as R. rewrite Hrun in R. destruct R as (R & _).
+  assert (Hpos : 0 <= c).
+  { destruct (find_mod_reg_In c _ Hreg) as [Hi Hcc]. pose proof (ro_pos _ _ _ _ _ R _ Hi). lia. }
+  apply notice_exact; auto.
+  - eapply snapshot_NoDup; eauto. discriminate.
+  - intros f Hin. destruct (Henv f Hin). eapply RegInv_ready; eauto.
+Qed.
